@@ -1,11 +1,45 @@
 package main
 
-import "fmt"
+import (
+	"fmt"
+	"io/ioutil"
+	"os"
+)
 
-// generate regenerates the harness services with the generator built from
-// /repo's current tree. Filled in with the bus engines.
+// generate regenerates the harness services (harness/idl/*.idl) with the stub
+// generator built from /repo's current tree, into harness/gen (gitignored).
+// If the generator cannot be built or fails, the pinned copy is used instead
+// (reported as "pinned-fallback") so that a generator defect is reported by
+// C05 rather than breaking every check.
 func generate(harness string) (string, error) {
-	return "", fmt.Errorf("not implemented")
+	os.MkdirAll(harness+"/gen/probe", 0755)
+	stubgen := root + "/build/stubgen"
+	out, err := run(harness, env(), "go", "build", "-o", stubgen, "github.com/lugu/qiloop/meta/cmd/stub")
+	if err == nil {
+		tmp := harness + "/gen/probe/probe_gen.go.tmp"
+		out, err = run(harness, env(), stubgen, "--idl", "idl/probe.idl", "--output", tmp, "--path", "verif/gen/probe")
+		if err == nil {
+			if st, e := os.Stat(tmp); e == nil && st.Size() > 0 {
+				if err = os.Rename(tmp, harness+"/gen/probe/probe_gen.go"); err == nil {
+					return "fresh", nil
+				}
+			} else {
+				err = fmt.Errorf("empty generator output")
+			}
+		}
+		os.Remove(tmp)
+	}
+	if e2 := usePinned(harness); e2 != nil {
+		return "", fmt.Errorf("generator failed (%v: %s) and pinned copy unusable: %v", err, out, e2)
+	}
+	return "pinned-fallback", nil
 }
 
-func usePinned(harness string) error { return fmt.Errorf("not implemented") }
+func usePinned(harness string) error {
+	b, err := ioutil.ReadFile(harness + "/pinned/probe/probe_gen.go.txt")
+	if err != nil {
+		return err
+	}
+	os.MkdirAll(harness+"/gen/probe", 0755)
+	return ioutil.WriteFile(harness+"/gen/probe/probe_gen.go", b, 0644)
+}
